@@ -18,7 +18,7 @@ func init() { register("C13", c13) }
 
 // C13: format conversions and reader entry points agree.
 //
-//	case: ((trees (T ...)) (translate T|F) (seps ("\n" ...)) (breaks T|F) (nsjson "nextstrain json of the first tree"))
+//	case: ((trees (T ...)) (translate T|F) (seps ("\n" ...)) (breaks T|F) (breakat (i ...)) (nsjson "nextstrain json of the first tree"))
 //
 // The handler does what `gotree reformat nexus|phyloxml|newick` do (cmd/reformat*.go): the
 // input file is read with utils.ReadMultiTrees and the channel is handed to
@@ -32,6 +32,8 @@ func init() { register("C13", c13) }
 //	nexus   : WriteNexus(ReadMultiTrees(one tree per line), translate); nexus_err
 //	nexus_recs : records of ReadMultiTrees(nexus text, nexus)
 //	px, px_err, px_recs : the same through WritePhyloXML / the PhyloXML reader
+//	px_b, nexus_b (+_err, _recs) : WritePhyloXML / WriteNexus fed with the trees as built (not re-parsed), ids 0,1,...
+//	nexus_z (+_err, _recs) : WriteNexus fed with records whose Id was never set (every tree is written as tree0)
 //	tnexus, tnexus_recs : Tree.Nexus() of the first tree and its records
 //	first   : for newick (src), nexus, phyloxml, nextstrain: ((fmt f) (first REC) (head REC|()))
 //	          = utils.ReadTreeReader against the first record of utils.ReadMultiTrees
@@ -106,11 +108,26 @@ func c13run(c *Sexp) *Sexp {
 		texts = append(texts, t.Newick())
 	}
 	var lines, src strings.Builder
+	breakat := c.IntList("breakat") // increasing indices of the commas (counted over the whole file) followed by a line break
+	comma := 0
 	for i, x := range texts {
 		lines.WriteString(x)
 		lines.WriteString("\n")
 		if c.Bool("breaks") {
 			x = strings.ReplaceAll(x, ",", ",\n")
+		} else if len(breakat) > 0 {
+			var b strings.Builder
+			for j := 0; j < len(x); j++ {
+				b.WriteByte(x[j])
+				if x[j] == ',' {
+					if len(breakat) > 0 && breakat[0] == comma {
+						b.WriteByte('\n')
+						breakat = breakat[1:]
+					}
+					comma++
+				}
+			}
+			x = b.String()
 		}
 		src.WriteString(x)
 		src.WriteString(seps[i])
@@ -137,6 +154,36 @@ func c13run(c *Sexp) *Sexp {
 	} else {
 		add("px_recs", L())
 	}
+	// the same writers fed with the trees as built through the API (parent at any position in
+	// a node's neighbour list, as after a reroot), not with re-parsed trees: ids 0,1,...
+	feed := func(zero bool) <-chan tree.Trees {
+		ch := make(chan tree.Trees, len(trees))
+		for i, t := range trees {
+			id := i
+			if zero {
+				id = 0 // a tree.Trees value whose Id was never set
+			}
+			ch <- tree.Trees{Tree: t, Id: id}
+		}
+		close(ch)
+		return ch
+	}
+	chain := func(name string, text string, err error, format int) {
+		add(name, A(text))
+		add(name+"_err", A(errStr(err)))
+		if err == nil {
+			add(name+"_recs", c13multi(text, format))
+		} else {
+			add(name+"_recs", L())
+		}
+	}
+	pxb, err := phyloxml.WritePhyloXML(feed(false))
+	chain("px_b", pxb, err, utils.FORMAT_PHYLOXML)
+	nexb, err := nexus.WriteNexus(feed(false), c.Bool("translate"))
+	chain("nexus_b", nexb, err, utils.FORMAT_NEXUS)
+	nexz, err := nexus.WriteNexus(feed(true), c.Bool("translate"))
+	chain("nexus_z", nexz, err, utils.FORMAT_NEXUS)
+
 	// Tree.Nexus()
 	tn := trees[0].Nexus()
 	add("tnexus", A(tn))
